@@ -237,6 +237,8 @@ Definition whitelist : list (string * string * string * nat * string) := [
   ("myst_parser/mdit_to_docutils/transforms.py", "ResolveAnchorIds.apply", "list.remove:refnode.parent.replace", 0, "refnode comes from findall(document): it is a child of its parent");
   ("myst_parser/parsers/docutils_.py", "Parser.parse", "list.remove:node.parent.replace", 0, "node comes from document.traverse(nodes.raw): it is a child of its parent");
   ("myst_parser/mocking.py", "MockIncludeDirective.run", "env.relfn2path", 0, "the argument is the directive argument text: markdown-it replaces NUL characters of the source by U+FFFD and directive arguments are not percent-decoded, so no NUL can reach os.path");
+  ("myst_parser/mdit_to_docutils/sphinx_.py", "SphinxRenderer.render_link_path", "os.access", 0,
+   "abs_path is the result of _abs_path(): os.path.abspath has accepted it (a destination with a NUL character gives None, tested first in the same condition)");
   ("myst_parser/inventory.py", "_create_regex", "re.compile", 0,
    "the pattern consists of re.escape()d characters and '.*' only (C19 model of _create_regex)")
 ].
@@ -249,17 +251,9 @@ Definition raise_whitelist : list (string * string * string) := [
 
 (* sites of defects that are open today: (file, function, callee, ordinal, finding signature) *)
 Definition open_sites : list (string * string * string * nat * string) := [
-  (* a link destination containing %00 is percent-decoded by normalizeLinkText to a NUL character, which
-     os.path (inside sphinx_env.relfn2path) and os.access reject with ValueError; reported to the C12 builder.
-     (Until commit 3eadb40 the two urlparse() sites of render_link_url / render_link_inventory were listed here.) *)
-  ("myst_parser/mdit_to_docutils/sphinx_.py", "SphinxRenderer.render_link_project", "env.relfn2path", 0,
-   "exception:ValueError:mdit_to_docutils/sphinx_.py:render_link_project");
-  ("myst_parser/mdit_to_docutils/sphinx_.py", "SphinxRenderer.render_link_path", "env.relfn2path", 0,
-   "exception:ValueError:mdit_to_docutils/sphinx_.py:render_link_path");
-  ("myst_parser/mdit_to_docutils/sphinx_.py", "SphinxRenderer.render_link_path", "os.access", 0,
-   "exception:ValueError:mdit_to_docutils/sphinx_.py:render_link_path");
-  ("myst_parser/mdit_to_docutils/sphinx_.py", "SphinxRenderer.render_link_unknown", "env.relfn2path", 0,
-   "exception:ValueError:mdit_to_docutils/sphinx_.py:render_link_unknown")
+  (* none today.  History: until 3eadb40 the two urlparse() sites of render_link_url / render_link_inventory;
+     until 9a2ab65 (C12 builder) the sphinx_env.relfn2path / os.access sites of SphinxRenderer.render_link_project,
+     render_link_path, render_link_unknown (a destination with %00 becomes a NUL character: ValueError). *)
 ].
 
 (* ---------------------------------------------------------------- checker *)
